@@ -390,6 +390,10 @@ def exec_family(ctx, prop, extra=(), nopar=False, mc=("flat",), mc_thorough=(), 
 def check_C01(ctx):
     planner_family(ctx, "C01", qdeps=1)
     exec_family(ctx, "C01", extra=["--ppanic", 0.12], mc=("flat",), mc_thorough=("flat2", "batch", "deps"))
+    # funnel programs under the controller: long groups whose members conflict with members that are not their
+    # neighbours - whatever the executor does inside a group, two conflicting members are never inside run together
+    exec_i2s(ctx, TRACE_INVS["C01"], count=14 if ctx.quick() else 150, nmin=3, nmax=30, dispatches=2,
+             extra=["--pfunnel", 1.0, "--gated", 1.0], seed_off=6)
     exec_s2i(ctx, "C01", maxforce=1500 if ctx.quick() else 17000)
     async_stage(ctx, ["InvC01x"], 80 if ctx.quick() else 600, extra=["--ppanic", 0.35])
 
